@@ -35,10 +35,11 @@ func vStdCfg(prefix, idBase string, nDocs int, wide int) gCfg {
 	}
 	if vParam("longTerm", 0) == 1 {
 		// an incompressible doc-value term of 200 bytes: chunk data of 128 bytes and more (two-byte varints in the chunk tables)
-		return gCfg{prefix: prefix, idBase: idBase, nDocs: nDocs, wide: wide, maxAP: 1, idDV: true,
+		// (and two stored values of 2 and 3 bytes per document: the second one starts at a non-zero offset)
+		return gCfg{prefix: prefix, idBase: idBase, nDocs: nDocs, wide: wide, maxAP: 1, idDV: true, storeAll: true, valLens: []int{2, 3},
 			fields: []gField{
-				{name: "f", terms: []string{""}, tv: true, maxLocs: 1, dv: true, store: true},
-				{name: "g", terms: []string{vLongTerm}, dv: true},
+				{name: "f", terms: []string{""}, tv: true, maxLocs: 1, dv: true, store: true, always: true},
+				{name: "g", terms: []string{vLongTerm}, dv: true, store: true, always: true},
 			}}
 	}
 	if vParam("lite", 0) == 1 {
